@@ -1,4 +1,5 @@
 import Adlt.Dlt.Enc
+import Adlt.Dlt.StreamSerial
 import Adlt.Gen.Consts
 /-! # C01 — DLT framing: complete, faithful recovery of messages between garbage
 
@@ -32,6 +33,50 @@ theorem C01_at_garbage (i : Nat) (d : Bytes) :
     (20 ≤ d.length → isPat storagePat d = false → parseStorage i d = .error .invalid) ∧
     (8 ≤ d.length → isPat serialPat d = false → parseSerial i d = .error .invalid) :=
   ⟨parseStorage_garbage i d, parseSerial_garbage i d⟩
+
+/-- **whole stream, storage-header framing.** For every stream that consists of well-formed messages and runs of other
+    bytes (`items`), in which neither frame marker begins anywhere except at the start of each message (`Clean`: markers
+    straddling item boundaries included), the iterator started with index `i0` yields exactly those messages, in order,
+    numbered `i0, i0+1, …`, every header field and payload byte intact; the bytes counted as processed never exceed the
+    input; the bytes counted as skipped are exactly the garbage except for an unconsumed tail `u` that lies within the
+    garbage after the last message and is shorter than a minimal message -/
+theorem C01_storage_stream (i0 : Nat) (items : List Item) (hw : allWf false items = true) (hc : Clean false items)
+    (fuel : Nat) (hf : (render false items).length < fuel) :
+    let r := iterAll fuel { index := i0 } (render false items)
+    r.1 = expected false i0 items ∧ r.2.index = i0 + r.1.length ∧
+    ∃ u, u ≤ tailGarbage items ∧ u < 20 ∧ r.2.processed + u = (render false items).length ∧
+      r.2.processed ≤ (render false items).length ∧ r.2.skipped + u = garbageLen items := by
+  obtain ⟨a, b, u, h1, h2, h3, h4, h5⟩ := iter_stream items fuel { index := i0 } rfl hw hc hf
+  refine ⟨a, by rw [b, a], u, h1, h3, ?_, ?_, ?_⟩
+  · rw [h4]; simp only []; omega
+  · rw [h4]; simp only []; omega
+  · simpa using h5
+
+/-- **whole stream, serial-header framing**: the same, with an unconsumed tail shorter than a minimal serial message -/
+theorem C01_serial_stream (i0 : Nat) (items : List Item) (hw : allWf true items = true) (hc : Clean true items)
+    (fuel : Nat) (hf : (render true items).length < fuel) :
+    let r := iterAll fuel { index := i0 } (render true items)
+    r.1 = expected true i0 items ∧ r.2.index = i0 + r.1.length ∧
+    ∃ u, u ≤ tailGarbage items ∧ u < 8 ∧ r.2.processed + u = (render true items).length ∧
+      r.2.processed ≤ (render true items).length ∧ r.2.skipped + u = garbageLen items := by
+  obtain ⟨a, b, u, h1, h2, h3, h4, h5⟩ := iter_stream_ser items fuel { index := i0 } rfl hw hc hf
+  refine ⟨a, by rw [b, a], u, h1, h3, ?_, ?_, ?_⟩
+  · rw [h4]; simp only []; omega
+  · rw [h4]; simp only []; omega
+  · simpa using h5
+
+/-- non-vacuity: garbage, a minimal message, garbage containing the bytes `D L T` but no complete marker -/
+example : Clean false [.g [1, 2, 3], .m { sh := [1,0,0,0, 2,0,0,0, 65,66,67,68], htyp := 0x20, mcnt := 8, add := [], payload := [] },
+                       .g [0x44, 0x4c, 0x54, 0x02]] := by
+  refine ⟨?_, ?_, ?_, trivial⟩
+  · have : ∀ j, j < 3 → anyMarkerAt (([1, 2, 3] ++ render false [.m { sh := [1,0,0,0, 2,0,0,0, 65,66,67,68], htyp := 0x20, mcnt := 8, add := [], payload := [] },
+        .g [0x44, 0x4c, 0x54, 0x02]]).drop j) = false := by decide
+    exact fun j hj => this j hj
+  · have : ∀ j, j < 20 → 1 ≤ j → anyMarkerAt (((RawMsg.enc false { sh := [1,0,0,0, 2,0,0,0, 65,66,67,68], htyp := 0x20, mcnt := 8, add := [], payload := [] }) ++
+        render false [.g [0x44, 0x4c, 0x54, 0x02]]).drop j) = false := by decide
+    exact fun j h1 h2 => this j (by simpa [RawMsg.enc, marker, storagePat] using h2) h1
+  · have : ∀ j, j < 4 → anyMarkerAt (([0x44, 0x4c, 0x54, 0x02] ++ render false []).drop j) = false := by decide
+    exact fun j hj => this j hj
 
 /-- non-vacuity: a concrete message with ECU id, timestamp and extended header is well-formed -/
 example : ({ sh := [1,0,0,0, 2,0,0,0, 65,66,67,68], htyp := 0x35, mcnt := 7,
